@@ -10,6 +10,11 @@
 (* status and the audit parts.  The specification gives: whether exactly   *)
 (* one audit record is written, which rules it lists, and how often the    *)
 (* error callback fires (C19).                                             *)
+(*                                                                         *)
+(* Law FormatStable (checked on the real formatters, every format): the    *)
+(* bytes a formatter returns for a record are that record for good - they  *)
+(* still read the same, and carry the same transaction id, after any       *)
+(* number of later records were formatted (a writer may queue them).       *)
 (***************************************************************************)
 EXTENDS Integers, Sequences, FiniteSets, TLC, Json
 
